@@ -24,8 +24,8 @@
  *                                   d<code> <rational> = dparam, e.g. d11 ER_SPACE_MUL, d8 UC_SPACE_MUL, d16 DENSE_FRACT)
  *   FCOL <k> <cnt> (<row> <val>)*   set column k of the matrix (sparse)
  *   FACTOR                          mpq_ILLfactor on the current columns
- *   FTRAN <cnt> (<idx> <val>)*      -> FTRAN x_0 .. x_{n-1}
- *   BTRAN <cnt> (<idx> <val>)*      -> BTRAN y_0 .. y_{n-1}
+ *   FTRAN <cnt> (<idx> <val>)*      -> FTRAN x_0 .. x_{n-1} ; XORD <cnt> <idx>*  (the indices of the result in the order listed)
+ *   BTRAN <cnt> (<idx> <val>)*      -> BTRAN y_0 .. y_{n-1} ; XORD ...
  *   FUPD <col> <cnt> (<row> <val>)* ftran_update with the new column (-> FUPDX x, FUPDS spike as listed), then ILLfactor_update replacing basis position col;
  *                                   on failure / refactor request: fresh factorization (REFACTOR), undone if singular (REVERT)
  *   FDUMP                           representation dump of the factor_work (header field dense_base: -1 <=> dense_factor did not run);
@@ -332,6 +332,9 @@ int main (int argc, char **argv)
 			if (op[0] == 'F') mpq_ILLfactor_ftran (F, &a, &x);
 			else mpq_ILLfactor_btran (F, &a, &x);
 			print_dense (op, &x, FN);
+			/* the order in which the result is listed = the order in which the last phase (ftranu / ftranu3, btranl2 / btranl3) handled
+			   the entries with a non-zero value */
+			{ int k; printf ("XORD %d", x.nzcnt); for (k = 0; k < x.nzcnt; k++) printf (" %d", x.indx[k]); putchar ('\n'); }
 			mpq_ILLsvector_free (&a); mpq_ILLsvector_free (&x);
 		}
 		else if (!strcmp (op, "FUPD"))
